@@ -2,5 +2,7 @@ SPECIFICATION Spec
 CONSTANTS
   Fams <- QuickFams
   D_SwapDelete = TRUE
+  Cap = 2
+  M_DepthBuffersDisjoint = TRUE
 INVARIANTS AllInv
 CHECK_DEADLOCK FALSE
